@@ -123,7 +123,11 @@ class ColangParser:
         else:
             # Otherwise, it's a sequence and we take all the flow elements and return them
             # (a file with a single statement, e.g. one import, yields the bare element)
-            elements = [data] if isinstance(data, Import) else data["elements"]
+            elements = (
+                data["elements"]
+                if isinstance(data, dict) and data.get("_type") in ("start", "suite")
+                else [data]
+            )
             for element in elements:
                 if element["_type"] == "flow":
                     element.file_info["exclude_from_llm"] = exclude_flows_from_llm
